@@ -1,4 +1,5 @@
 import CalmVerif.Props.C09
+import CalmVerif.Props.C09C10
 open CalmVerif.Props.C09
 #print axioms write_decodes
 #check @write_decodes
@@ -16,3 +17,6 @@ open CalmVerif.Props.C09
 #check @multi_source
 #print axioms written_text
 #check @written_text
+
+#print axioms CalmVerif.Props.C09C10.written_mappings_string_roundtrip
+#check @CalmVerif.Props.C09C10.written_mappings_string_roundtrip
